@@ -160,6 +160,10 @@ int main(int argc, char** argv) {
 		.set("exhaustive", !total.incomplete)
 		.set("rule", std::string("profile ") + RX_PROFILE + ": every (key,input,version) of the alphabets is hashed by every configuration of the lattice (light flag sets x 6 cache configurations, fast flag sets x datasets built by the compiled/interpreted initialiser of those caches); all digests must be equal and equal to the specification model. evaluations = hashes, distinct = (key,input,version) cases; configurations per case in counters")
 		;
-	ev.assumptions = { "LARGE_PAGES flag sets are not exercised (no huge pages in the sandbox); they share all code with the default allocator variants except the allocation call (C15 covers that)" };
+#ifdef RX_LARGEPAGES
+	ev.assumptions = { "this part runs every cache, dataset and VM with RANDOMX_FLAG_LARGE_PAGES; the sandbox has no huge pages, so the harness-owned mmap answers MAP_HUGETLB requests with ordinary pages (the library's large-page classes and allocator code are the real ones)" };
+#else
+	ev.assumptions = { "LARGE_PAGES flag sets are exercised by the separate part mini-largepages (harness-owned mmap answers MAP_HUGETLB)" };
+#endif
 	return vf::finish(args, total, ev, true, true);
 }
